@@ -763,7 +763,8 @@ bool Units::compatible(const UnitsPtr &units1, const UnitsPtr &units2)
 bool Units::equivalent(const UnitsPtr &units1, const UnitsPtr &units2)
 {
     // Units must be compatible and return a scaling factor of 1.0.
-    return areNearlyEqual(Units::scalingFactor(units1, units2), 1.0);
+    // The factor is 10 to a sum of logarithms: identical scales can differ from 1.0 by a few ulps.
+    return std::fabs(Units::scalingFactor(units1, units2) - 1.0) < 1.0e-12;
 }
 
 UnitsPtr Units::clone() const
